@@ -230,6 +230,18 @@ class ExternalVariableCollector(NodeVisitor):
             self.assigned.add(node.name)
         self.generic_visit(node)
 
+    def _visit_match_capture(self, node):
+        # Capture patterns of a match statement bind their names
+        name = getattr(node, "name", None) or getattr(node, "rest", None)
+        if name is not None:
+            self.provenance.setdefault(name, "body")
+            self.assigned.add(name)
+        self.generic_visit(node)
+
+    visit_MatchAs = _visit_match_capture
+    visit_MatchStar = _visit_match_capture
+    visit_MatchMapping = _visit_match_capture
+
     def visit_Import(self, node):
         self.visit_ImportFrom(node)
 
@@ -777,6 +789,33 @@ class PteraTransformer(NodeTransformer):
                 body=new_body,
             ),
             node,
+        )
+
+    def visit_match_case(self, node):
+        """Rewrite a case of a match statement.
+
+        Before:
+            case [x, y]: ...
+
+        After:
+            case [x, y]:
+                x = _ptera_interact('x', None, x)
+                y = _ptera_interact('y', None, y)
+                ...
+        """
+        new_body = []
+        for sub in ast.walk(node.pattern):
+            name = getattr(sub, "name", None) or getattr(sub, "rest", None)
+            if isinstance(name, str):
+                target = ast.copy_location(
+                    ast.Name(id=name, ctx=ast.Store()), sub
+                )
+                new_body.extend(self.generate_interactions(target))
+        new_body.extend(self.visit_body(node.body))
+        return ast.match_case(
+            pattern=node.pattern,
+            guard=node.guard and self.visit(node.guard),
+            body=new_body,
         )
 
     def visit_NamedExpr(self, node):
